@@ -378,6 +378,51 @@ func runC14(c *Ctx) {
 		})
 		c.Check(ok, "C14.5-bounded-wait", FuncName(fn)+"|ctx.Done ⇒ conn.Close", p.Pos(fn.Pos()), "the driver waits on ctx.Done() and closes the connection on that edge (no unbounded wait)")
 	}
+
+	// ---- C14.4b the identity attached to the connection must not alias pooled memory: the byte
+	// slice stored into handshake.Result.Identity (it outlives the handshake, in the connection
+	// context) is not a field of an object taken from a sync.Pool nor of the pooled *Credentials
+	// parameter — such an object is reused by the next handshake, which would overwrite the
+	// identity an earlier connection was established with.
+	{
+		rule := "C14.4-result-not-pooled"
+		fIdent := p.Field(hsPkg + ":Result.Identity")
+		isPoolGet := func(v ssa.Value) bool {
+			call, ok := v.(*ssa.Call)
+			if !ok {
+				return false
+			}
+			o := CalleeObj(&call.Call)
+			return o != nil && o.Pkg() != nil && o.Pkg().Path() == "sync" && o.Name() == "Get"
+		}
+		var fns []*ssa.Function
+		fns = append(fns, p.FuncsOfPkg(hsPkg)...)
+		fns = append(fns, p.FuncsOfPkg(ssPkg)...)
+		n := 0
+		for _, w := range FieldWrites(fns, fIdent) {
+			if isTestSupport(p, w.Fn) {
+				continue
+			}
+			n++
+			c.Fn(FuncName(w.Fn))
+			bad := ""
+			vals, _ := Origins(w.Val)
+			for _, o := range vals {
+				f, base := LoadedField(o)
+				if f == nil {
+					continue
+				}
+				if usesValue(base, isPoolGet) {
+					bad = "Result.Identity is the " + f.Name() + " slice of an object taken from a sync.Pool: the next handshake that reuses the object overwrites the identity of this connection"
+				}
+				if pm, ok := base.(*ssa.Parameter); ok && strings.HasSuffix(pm.Type().String(), "handshakeproto.Credentials") {
+					bad = "Result.Identity aliases a byte slice of the pooled *Credentials parameter"
+				}
+			}
+			c.Check(bad == "", rule, FuncName(w.Fn)+"|Result.Identity is not pooled memory", p.Pos(InstrPos(w.Instr)), orDefault(bad, "the identity bytes come from a message decoded for this handshake only"))
+		}
+		c.Min(rule, 1)
+	}
 }
 
 // variadicConsts returns the constant values stored into the backing array of
